@@ -299,3 +299,59 @@ def _as_dict(pairs):
     for k, v in pairs:
         d[k] = v
     return [[k, v] for k, v in d.items()]
+
+
+# --------------------------------------------------------------------------- which rejecting path of a surrogate mutator
+
+SURROGATE_PATHS = {
+    "add_surrogate": ["name=time", "name taken", "output=time", "output taken", "output=name", "output twice"],
+    "update_surrogate": ["unknown name", "output=time", "output taken", "output=own name", "output twice"],
+    "remove_surrogate": ["unknown name"],
+}
+
+
+def surrogate_reject_path(content, op):
+    """for a REJECTED add_/update_/remove_surrogate: which of the rejecting paths of the code the arguments lead to
+    (None when the call should have been accepted) — used to measure that the generator reaches every path"""
+    op = effective(op)
+    ns = Names(content)
+    k, n = op[0], op[1]
+    if k == "remove_surrogate":
+        return None if n in ns.sets["surs"] else "unknown name"
+    if k == "add_surrogate":
+        taken = ns.taken()
+        if n == "time":
+            return "name=time"
+        if n in taken:
+            return "name taken"
+        seen = set()
+        for o in op[2]["outs"]:
+            if o == "time":
+                return "output=time"
+            if o == n:
+                return "output=name"
+            if o in taken:
+                return "output taken"
+            if o in seen:
+                return "output twice"
+            seen.add(o)
+        return None
+    if k == "update_surrogate":
+        if n not in ns.sets["surs"]:
+            return "unknown name"
+        old = ns.outs[n]
+        outs = op[4] if op[4] is not None else (op[2]["outs"] if op[2] is not None else old)
+        taken = ns.taken() - set(old)
+        seen = set()
+        for o in outs:
+            if o == "time":
+                return "output=time"
+            if o == n:
+                return "output=own name"
+            if o in taken:
+                return "output taken"
+            if o in seen:
+                return "output twice"
+            seen.add(o)
+        return None
+    return None
